@@ -585,7 +585,7 @@ func c20Run(c *mc.Ctx) {
 	c.Set("type_depth", D)
 	c.Set("types", len(types))
 	c.Set("types_per_depth", per)
-	types = append(types, c20Handwritten(), c20SameNamed())
+	types = append(types, c20Handwritten(), c20SameNamed(), c20IfaceSlots())
 	nvals := 0
 	for _, t := range types {
 		nvals += len(t.vals)
@@ -650,7 +650,7 @@ func c20Judge(kind string, cs c20Case) (got, want string) {
 		return fmt.Sprintf("Of=%s%d", p, g), "Of=0"
 	}
 	types, _ := c20Types(cs.Depth, cs.Width)
-	types = append(types, c20Handwritten(), c20SameNamed())
+	types = append(types, c20Handwritten(), c20SameNamed(), c20IfaceSlots())
 	if cs.Path[0] >= len(types) || cs.Path[1] >= len(types[cs.Path[0]].vals) {
 		return "case does not exist in this enumeration", ""
 	}
